@@ -382,7 +382,9 @@ def body(chk, db, cfgname):
             elif any(x[0] in ("true", "false") and isinstance(x[1], tuple) and x[1][0] in ("call", "mcall") and key_contains(x[1], lambda y: y == k[3]) for x in fa):
                 r8.unknown(site, g.loc(j), "the look-up is dereferenced under a test of the same key through a helper (%s): whether that establishes presence is not analysed" % str([x[1][1] for x in fa if x[0] in ("true", "false") and isinstance(x[1], tuple) and x[1][0] in ("call", "mcall") and key_contains(x[1], lambda y: y == k[3])][0])[:60], cfgname)
             else:
-                r8.bad(site, g.loc(j), "the result of %s is dereferenced without a dominating test against end() (or count): an absent key dereferences end()" % g.s(n["args"][0])[:70], cfgname)
+                # no test at all: whether the key is always present is an invariant of the surrounding code (as for the assumed
+                # look-ups above), not something this rule can refute -- undecided, not a defect
+                r8.unknown(site, g.loc(j), "the result of %s is dereferenced without a test against end() (or count); that the key is always present is not established by this rule" % g.s(n["args"][0])[:70], cfgname)
 
     chk.undecided.append("arithmetic overflow (1<<IndexSize), use before prepare/compute, lifetime of leaked raw pointers; UB classes outside the anchored mechanisms")
     chk.note("assumed (not checked): FieldOperator::getPartFrom*Index look-ups rely on the bimap invariant established by prepare (C07-R5)")
